@@ -11,13 +11,14 @@ impl World {
     /// `view` is p's state right now.
     pub fn check_reply(&mut self, p: usize, m: &Msg, answers: &BTreeMap<Id, (u64, u64)>, view: &NodeView) -> Result<(), Violation> {
         let Some(ops) = m.ops() else { return Ok(()) };
-        let c07 = self.on("C07");
+        let c08 = self.on("C08");
+        let c07 = self.on("C07") || c08;
         let c14 = self.on("C14");
         if !c07 && !c14 {
             return Ok(());
         }
         let Some(deltas) = codec::group_ops(ops) else {
-            return Err(self.viol("C07", "C07.malformed", format!("n{p} produced an op stream no decoder accepts")));
+            return Err(self.viol(if c08 && !self.on("C07") { "C08" } else { "C07" }, "C07.malformed", format!("n{p} produced an op stream no decoder accepts")));
         };
         let node = self.nodes[p].as_ref().unwrap();
         let scheduled: HashSet<Id> = {
@@ -31,7 +32,12 @@ impl World {
         if c07 {
             match crate::c07::check_deltas(&format!("n{p}"), &node.chit, view, &scheduled, answers, &deltas) {
                 Ok(rep) => truncated = rep.truncated,
-                Err((code, detail)) => return Err(self.viol("C07", &code, detail)),
+                Err((code, detail)) => {
+                    if c08 && !self.on("C07") {
+                        return Err(self.viol("C08", &code.replace("C07.", "C08.delta_"), detail));
+                    }
+                    return Err(self.viol("C07", &code, detail));
+                }
             }
         } else {
             for nd in &deltas {
